@@ -74,7 +74,16 @@ C14_OPS = (
     + base_nobase("O14.6", "root_remove_inode", "remove_file/remove_dir: exactly one unlinkat(parent fd, base, 0|AT_REMOVEDIR)")
 )
 
-C14_OPS.append(ob("O14.6.ok", ROOT + "root_remove_inode_okpath", "success path only", covers_may_be_unsat=["failed","refused"]))
+def two_parent(id, stem, decides):
+    return [
+        ob(id + ".base", ROOT + stem + "_base", decides + " [both paths have a final component]", stubs=OP_STUBS, covers_may_be_unsat=["trailing slash"], cost=7),
+        ob(id + ".nobase2", ROOT + stem + "_nobase2", decides + " [second path has a trailing slash / is empty: InvalidArgument, nothing done]", stubs=OP_STUBS, covers_may_be_unsat=["linked", "renamed"], tiers=("thorough",), cost=6),
+        ob(id + ".nobase1", ROOT + stem + "_nobase1", decides + " [first path has a trailing slash / is empty: InvalidArgument, nothing done]", stubs=OP_STUBS, covers_may_be_unsat=["linked", "renamed", "target trailing slash"], tiers=("thorough",), cost=6),
+    ]
+
+
+C14_OPS += two_parent("O14.4", "root_create_hardlink", "create(Hardlink): linkat(parent(target) fd, base(target), parent(path) fd, base(path), 0) after both parents were resolved; new entry's parent first")
+C14_OPS += two_parent("O14.7", "root_rename", "rename: renameat2(parent(src) fd, base(src), parent(dst) fd, base(dst), flags verbatim)")
 
 FD = "utils::fd::verif_h_fd::"
 
@@ -154,7 +163,11 @@ C14_CAPI = [
 MK_STUBS = ["Resolver::resolve_partial", "Handle::reopen", "syscalls::mkdirat", "syscalls::openat_follow"]
 C12_OBS = [
     ob("O12.1", ROOT + "root_mkdir_all_bad_mode", "mkdir_all with EVERY mode having a bit outside 0o1777: InvalidArgument and zero lookups/syscalls", stubs=["Resolver::resolve_partial"], cost=2),
-    ob("O12.2", ROOT + "root_mkdir_all_tail", "mkdir_all when the partial lookup stops with ENOENT and EVERY remaining tail <= L bytes: '..' among the components => ENOENT and nothing created; otherwise exactly mkdirat(cur,c,mode) + openat(cur,c,O_DIRECTORY|O_NOFOLLOW|O_CLOEXEC|O_NOCTTY) per non-empty non-'.' component, chained through the opened fds; EEXIST tolerated, any other errno aborts; handle returned = last opened fd; intermediates closed", stubs=MK_STUBS, cost=9),
+    ob("O12.2a", ROOT + "root_mkdir_all_tail_ok", "mkdir_all, partial lookup stopped with ENOENT, EVERY remaining tail <= L and every valid mode, all kernel steps succeed: '..' among the components => ENOENT and nothing created; otherwise exactly mkdirat(cur,c,mode verbatim) + openat(cur,c,O_DIRECTORY|O_NOFOLLOW|O_CLOEXEC|O_NOCTTY) per non-empty non-'.' component, chained through the opened fds; returned handle = last opened fd; intermediates closed", stubs=MK_STUBS, covers_may_be_unsat=["aborted midway"], cost=8),
+    ob("O12.2b", ROOT + "root_mkdir_all_tail_eexist", "... the first mkdirat answers EEXIST: tolerated, walk continues exactly as above", stubs=MK_STUBS, covers_may_be_unsat=["aborted midway", "nothing to create"], cost=8),
+    ob("O12.2c", ROOT + "root_mkdir_all_tail_mkdir_fails", "... the first mkdirat fails with EACCES: abort with that errno after that single call, descriptors closed", stubs=MK_STUBS, covers_may_be_unsat=["one directory created", "two directories created"], cost=7),
+    ob("O12.2d", ROOT + "root_mkdir_all_tail_open_fails", "... the open of the first created component fails: abort, descriptors closed", stubs=MK_STUBS, covers_may_be_unsat=["one directory created", "two directories created"], cost=7),
+    ob("O12.2", ROOT + "root_mkdir_all_tail", "mkdir_all when the partial lookup stops with ENOENT and EVERY remaining tail <= L bytes: '..' among the components => ENOENT and nothing created; otherwise exactly mkdirat(cur,c,mode) + openat(cur,c,O_DIRECTORY|O_NOFOLLOW|O_CLOEXEC|O_NOCTTY) per non-empty non-'.' component, chained through the opened fds; EEXIST tolerated, any other errno aborts; handle returned = last opened fd; intermediates closed [all fault combinations in one query]", stubs=MK_STUBS, tiers=("thorough",), timeout={"thorough": 5400}, mem_gb=24, cost=9),
     ob("O12.3", ROOT + "root_mkdir_all_complete", "mkdir_all when the path already resolves: O_DIRECTORY reopen of the handle, zero mkdirat", stubs=MK_STUBS, covers_may_be_unsat=["one directory", "two directories", "dotdot refused", "aborted midway"], cost=5),
     ob("O12.4", ROOT + "root_mkdir_all_partial_other_error", "mkdir_all when the partial lookup stopped for a reason other than ENOENT: that error, nothing created", stubs=["Resolver::resolve_partial"], covers_may_be_unsat=["nothing to create", "one directory", "two directories", "dotdot refused", "aborted midway"], tiers=("thorough",), cost=5),
     ob("O12.5", ROOT + "root_mkdir_all_resolver_error", "mkdir_all when the resolver fails: error, nothing created", stubs=["Resolver::resolve_partial"], covers_may_be_unsat=["nothing to create", "one directory", "two directories", "dotdot refused", "aborted midway"], tiers=("thorough",), cost=4),
@@ -195,8 +208,8 @@ C03_OBS = [O_RESOLVE_PARENT] + [o for o in C14_OPS if o["id"].endswith(".base")]
 C11_OBS = C11_CAPI + [o for o in C14_OPS if o["id"] in ("O14.5.base", "O14.5.nobase", "O14.6.base", "O14.1.base")] + [O_RESOLVE_PARENT, O_TRY_FROM_FD, O_OPEN_OKPATH, O_OPEN_LOOKUPFAIL, C12_OBS[1], C13_OBS[2], O_OF_LINK]
 
 WALK_STUBS = ["syscalls::openat_follow", "syscalls::statx", "syscalls::readlinkat", "FdExt>::metadata", "try_clone_to_owned"]
-O_WALK_PLAIN = ob("O7.4a", RP + "rprocfs_walk_one_component_plain", "opath_resolve (emulated procfs walk), one component of <= L symbolic bytes that is NOT a symlink, every non-creation flag word, arbitrary kernel: '..' => EXDEV with nothing opened; opens are O_NOFOLLOW single components; each descriptor is statx-checked before use/return", stubs=WALK_STUBS, covers_may_be_unsat=["ELOOP", "link body read"], cost=9)
-O_WALK_SYMLINK = ob("O7.4b", RP + "rprocfs_walk_one_component_symlink", "same, the component IS a symlink with body in {y, /y, ../y, ..}: absolute body => ELOOP, '..' in a body => EXDEV, the link descriptor is mount-checked BEFORE its body is read, the spliced component is walked the same way", stubs=WALK_STUBS, cost=10)
+O_WALK_PLAIN = ob("O7.4a", RP + "rprocfs_walk_one_component_plain", "opath_resolve (emulated procfs walk), one component of <= L symbolic bytes that is NOT a symlink, every non-creation flag word, arbitrary kernel: '..' => EXDEV with nothing opened; opens are O_NOFOLLOW single components; each descriptor is statx-checked before use/return", stubs=WALK_STUBS, covers_may_be_unsat=["ELOOP", "link body read"], tiers=("thorough",), timeout={"thorough": 4500}, cost=9)
+O_WALK_SYMLINK = ob("O7.4b", RP + "rprocfs_walk_one_component_symlink", "same, the component IS a symlink with body in {y, /y, ../y, ..}: absolute body => ELOOP, '..' in a body => EXDEV, the link descriptor is mount-checked BEFORE its body is read, the spliced component is walked the same way", stubs=WALK_STUBS, tiers=("thorough",), timeout={"thorough": 5400}, cost=10)
 
 PROPERTIES = {
     "C14": {
